@@ -7,6 +7,7 @@ import (
 	"fmt"
 	"math"
 	"math/rand/v2"
+	"runtime"
 	"slices"
 	"sort"
 
@@ -138,6 +139,7 @@ func init() {
 			{Name: "distance", TShards: 4, Run: c17Distance},
 			{Name: "long", QShards: 4, TShards: 12, Run: c17Long},
 			{Name: "huge", QShards: 2, TShards: 4, Run: c17Huge},
+			{Name: "seed", Run: c17Seed},
 			{Name: "parallel", Race: true, Run: mashParallel},
 			firstCallUnit(firstMash),
 			firstParallelUnit(parMash),
@@ -665,6 +667,66 @@ func c17Huge(c *Ctx) {
 			}
 			k.Count("huge_calls_checked", 1)
 			k.Nontrivial([]byte(fmt.Sprint("huge", lay[0], len(lay), kk)))
+		})
+	}
+}
+
+// c17Seed: mash.Seed is an exported setting; a caller may set it (once, at
+// start-up, or between batches). Whatever it is set to, the laws of the
+// statement hold under it: the same content gives the same sketch however often
+// and however it is computed — also after garbage collections, which empty
+// whatever pools the library keeps, and after the seed was different before.
+// The seed is restored at the end of every case.
+func c17Seed(c *Ctx) {
+	n := c.N(12, 200)
+	for i := 0; i < n; i++ {
+		c.Case(int64(i), func(k *K) {
+			r := k.Rand()
+			old := mash.Seed
+			defer func() { mash.Seed = old }()
+			seq := randSeq(r, []byte("ACGTacgtN"), 300+r.IntN(3000))
+			kk := pick(r, []int{7, 15, 21, 31})
+			size := pick(r, []int{10, 200})
+			sketch := func() []uint64 { return append([]uint64{}, mash.Sequences(size, kk, seq).View()...) }
+			byAdd := func() []uint64 {
+				mh := mash.Sequences(size, kk, seq[:len(seq)/2+kk-1])
+				mash.Add(mh, kk, seq[len(seq)/2:])
+				return append([]uint64{}, mh.View()...)
+			}
+			first := sketch() // under the seed the process started with
+			for round := 0; round < 3; round++ {
+				mash.Seed = uint32(r.Uint64())
+				k.Input("seed", mash.Seed)
+				a := sketch()
+				runtime.GC()
+				runtime.GC()
+				b := sketch()
+				cc := byAdd()
+				d := append([]uint64{}, mash.Sequences(size, kk, refRevComp(seq)).View()...)
+				switch {
+				case !sameU64(a, b):
+					k.Failf("sketch-variant", "with Seed = %d the same sequence gives two different sketches before and after a garbage collection", mash.Seed)
+					return
+				case !sameU64(a, cc):
+					k.Failf("sketch-variant", "with Seed = %d the sketch built with Add differs from the one built in one call", mash.Seed)
+					return
+				case !sameU64(a, d):
+					k.Failf("sketch-variant", "with Seed = %d the sketch of the reverse complement differs", mash.Seed)
+					return
+				}
+				if dd := mash.Distance(mash.Sequences(size, kk, seq), mash.Sequences(size, kk, seq), kk); len(a) == size && dd != 0 {
+					k.Failf("distance-identical", "with Seed = %d the distance of a sequence to itself is %v", mash.Seed, dd)
+					return
+				}
+				k.Count("seeds_tried", 1)
+			}
+			mash.Seed = old
+			runtime.GC()
+			if again := sketch(); !sameU64(again, first) {
+				k.Failf("sketch-variant", "after Seed was changed and set back, the same sequence gives a different sketch than before")
+				return
+			}
+			k.Nontrivial(seq[:32], []byte(fmt.Sprint(kk, size, i)))
 		})
 	}
 }
